@@ -157,9 +157,7 @@ func (m *Metadata) MarshalBinary() ([]byte, error) {
 
 // UnmarshalBinary implements encoding.BinaryUnmarshaler.
 func (m *Metadata) UnmarshalBinary(data []byte) error {
-	var read int64
-	for read < int64(len(data)) {
-		data = data[read:]
+	for len(data) != 0 {
 		v, _, err := varint.FromUvarint(data)
 		if err != nil {
 			return err
@@ -173,7 +171,10 @@ func (m *Metadata) UnmarshalBinary(data []byte) error {
 			return err
 		}
 		m.protocols = append(m.protocols, t)
-		read += tLen
+		if tLen <= 0 || tLen > int64(len(data)) {
+			return fmt.Errorf("transport %s consumed an invalid number of bytes: %d", id, tLen)
+		}
+		data = data[tLen:]
 	}
 	return m.Validate()
 }
